@@ -48,12 +48,21 @@ def fmt_us(us):
     return "%04d%02d%02dT%02d%02d%02d.%06d+00:00" % (y, m, d, h, mi, s, us % 1000000)
 
 
-def s4_ids(fname, cwd, after=None, before=None):
-    args = ["--color", "never", "-t", "+00:00", "--separator", SEP]
+def bound_text(us, style):
+    """the same instant written as UTC (+00:00), in +05:30 with the offset written, or zone-less in -03:30 wall-clock time"""
+    if style == "off":
+        return fmt_us(us + 330 * 60 * 1000000)[:-6] + "+05:30"
+    if style == "naive":
+        return fmt_us(us - 210 * 60 * 1000000)[:-6]
+    return fmt_us(us)
+
+
+def s4_ids(fname, cwd, after=None, before=None, style="utc"):
+    args = ["--color", "never", "-t=" + ("-03:30" if style == "naive" else "+00:00"), "--separator", SEP]
     if after is not None:
-        args += ["-a", fmt_us(after)]
+        args += ["-a", bound_text(after, style)]
     if before is not None:
-        args += ["-b", fmt_us(before)]
+        args += ["-b", bound_text(before, style)]
     r = common.run_s4(args + [fname], cwd=cwd, timeout=180)
     if r.timed_out or r.rc not in (0, 1):
         return None, r, args + [fname]
@@ -139,19 +148,23 @@ def window_leg(res, tier, prop, work=None):
             bs = bounds_for([ft_to_us(ft) for _, ft, _ in recs], tier)
             allb = sorted({t + d for t in (ft_to_us(ft) for _, ft, _ in recs) for d in (-1, 0, 1)})
             # single bounds on / +-1 us of EVERY record time; pairs over an evenly spaced subset
-            wins = [(a, None) for a in allb] + [(None, b) for b in allb]
+            wins = [(a, None, "utc") for a in allb] + [(None, b, "utc") for b in allb]
             pairs = bs[:: max(1, len(bs) // (6 if tier == "quick" else 30))]
-            wins += [(a, b) for a in pairs for b in pairs if a <= b]
+            wins += [(a, b, "utc") for a in pairs for b in pairs if a <= b]
+            # the same bounds written with a non-zero offset, and zone-less under a non-zero --tz-offset
+            for st in ("off", "naive"):
+                sub = bs if tier == "thorough" else bs[::3]
+                wins += [(a, None, st) for a in sub] + [(None, b, st) for b in sub] + [(a, b, st) for a in pairs[::2] for b in pairs[::2] if a <= b]
 
             def one(w):
-                return w, s4_ids(fname, work, w[0], w[1])
-            for (a, b), (ids, r, args) in common.pmap(one, wins):
+                return w, s4_ids(fname, work, w[0], w[1], w[2])
+            for (a, b, st), (ids, r, args) in common.pmap(one, wins):
                 res.count()
-                res.distinct((name, a, b))
+                res.distinct((name, a, b, st))
                 exp = expected(recs, a, b)
                 if ids != exp:
                     sym = "crash" if ids is None else ("selection-differs" if sorted(ids) != sorted(exp) else "order-differs")
-                    res.violation({"kind": "evtx", "file": name, "symptom": sym, "has_before": b is not None, "has_after": a is not None},
+                    res.violation({"kind": "evtx", "file": name, "symptom": sym, "bound_style": st, "has_before": b is not None, "has_after": a is not None},
                                   "evtx %s window [%s,%s]: printed %s records, expected %d" % (name, a, b, None if ids is None else len(ids), len(exp)),
                                   {"engine": "E-CLI", "args": args, "evtx": name})
             res.sample({"evtx": name, "records": len(recs), "window_bounds": len(bs)})
